@@ -165,3 +165,17 @@ Proof.
   apply (quiescent_all_reclaimed (l0 ++ ls1 ++ ls2 ++ OExchange :: ls4)); auto.
   rewrite (run_app _ _ _ _ R0). auto.
 Qed.
+
+(* deadlock freedom of the destructor: a disposer that is not idle always has its next step enabled, whatever the others do
+   (lock-free, not wait-free: the CAS may fail again and again under interference; see the note at quiescence_reachable) *)
+Theorem disposer_never_blocked s t :
+  match dpcs s t with
+  | Idle => True
+  | Start _ => step s (DLoad t) <> None
+  | Loaded _ _ => step s (DLink t) <> None
+  | Linked _ _ => forall sp, step s (DCas t sp) <> None
+  end.
+Proof.
+  unfold step. destruct (dpcs s t); auto; try discriminate.
+  intros sp. destruct (negb sp && oeqb (head s) h); discriminate.
+Qed.
